@@ -230,3 +230,37 @@ def const_value_of(prog, body, op, depth=6):
         else:
             return None
     return None
+
+
+def helper_owners(prog, names, allowed):
+    """Who-may-call rules name the functions allowed to do something.  A private (non-exported) function all of whose
+    callers are allowed is part of them: returns {name: set(owning allowed functions)} for every name in `names` that is
+    allowed itself or such a helper (transitively).  Names are normalised root-function names."""
+    cg = callgraph(prog)
+    by_root = {}
+    for x in prog.bodies.values():
+        r = prog.bodies.get(x.root, x)
+        by_root.setdefault(norm(r.name), []).append(x)
+    owners = {n: {n} for n in names if n in allowed}
+    changed = True
+    while changed:
+        changed = False
+        for u in sorted(set(names) - set(owners)):
+            members = by_root.get(u, [])
+            rootb = [x for x in members if x.id == x.root]
+            if not rootb or rootb[0].raw.get("pub") or rootb[0].raw.get("exported"):
+                continue
+            callers = set()
+            for x in members:
+                for c in cg.callers.get(x.id, ()):
+                    cb = prog.bodies[c]
+                    cn = norm(prog.bodies.get(cb.root, cb).name)
+                    if cn != u:
+                        callers.add(cn)
+            if callers and all(c in owners or c in allowed for c in callers):
+                own = set()
+                for c in callers:
+                    own |= owners.get(c, {c})
+                owners[u] = own
+                changed = True
+    return owners
